@@ -118,3 +118,157 @@ Section Options.
   Lemma rel_summaries_opts o1 o2 d k : noRelM o1 = noRelM o2 -> rel_summaries o1 d k = rel_summaries o2 d k.
   Proof. intros H. unfold rel_summaries, member_counts. rewrite H. reflexivity. Qed.
 End Options.
+
+(* ---- IncludeInvalidPolygons ---- *)
+Definition with_geom (f : feature) (g : geom) : feature :=
+  {| f_id := f_id f; f_type := f_type f; f_ref := f_ref f; f_tags := f_tags f; f_tainted := f_tainted f;
+     f_rels := f_rels f; f_meta := f_meta f; f_geom := g |}.
+
+Lemma add_first_len pred ring mp mp' : add_first pred ring mp = Some mp' -> List.length mp' = List.length mp.
+Proof.
+  revert mp'. induction mp as [|p mp IH]; intros mp'; cbn; [discriminate|].
+  destruct (pred p); [intros H; injection H as <-; reflexivity|].
+  destruct (add_first pred ring mp) as [r'|]; [|discriminate].
+  intros H. injection H as <-. cbn. f_equal. apply IH. reflexivity.
+Qed.
+
+Lemma add_to_mp_len mp ring incl : (List.length mp <= List.length (add_to_mp mp ring incl))%nat.
+Proof.
+  unfold add_to_mp.
+  destruct (add_first (fun p => polygon_contains (fst p) ring) ring mp) as [mp'|] eqn:H1.
+  { apply add_first_len in H1. lia. }
+  destruct (negb incl); [lia|].
+  destruct mp as [|p0 r0]; [cbn; lia|].
+  destruct (negb (is_nil (fst p0)) && negb (ring_closed (fst p0))); [cbn; lia|].
+  destruct (add_first (fun p => is_nil (fst p)) ring (p0 :: r0)) as [mp'|] eqn:H2.
+  { apply add_first_len in H2. lia. }
+  rewrite app_length. lia.
+Qed.
+
+Section Incl.
+  Variable join : list seg -> list (list seg).
+  Variable ring_of : Z -> list seg -> list pt.
+  Notation poly_result := (poly_result join ring_of).
+  Notation rel_result := (rel_result join ring_of).
+  Notation skippable := (skippable join ring_of).
+
+  Lemma add_inners_len incl mp0 inner :
+    (List.length mp0 <= List.length (add_inners join ring_of incl mp0 inner))%nat.
+  Proof.
+    unfold add_inners. revert mp0. induction (join inner) as [|s l IH]; intros mp0; cbn [fold_left]; [apply Nat.le_refl|].
+    eapply Nat.le_trans; [apply (add_to_mp_len mp0 (ring_of (-1) s) incl)|apply IH].
+  Qed.
+
+  Lemma outer_polys_len outer :
+    (List.length (outer_polys join ring_of false outer) <= List.length (outer_polys join ring_of true outer))%nat.
+  Proof.
+    unfold outer_polys. induction (join outer) as [|s l IH]; cbn [flat_map]; [apply Nat.le_refl|].
+    rewrite !app_length. cbn [negb andb] in *.
+    destruct (ring_invalid _); cbn [List.length Nat.add]; [apply le_S|apply le_n_S]; exact IH.
+  Qed.
+
+  Lemma mp_geom_some mp : mp <> [] -> exists g, mp_geom mp = Some g /\ is_mp_geom g = true.
+  Proof.
+    destruct mp as [|p [|q mp]]; [congruence| |]; intros _; eexists; split; reflexivity.
+  Qed.
+
+  Lemma mp_geom_is_mp mp g : mp_geom mp = Some g -> is_mp_geom g = true.
+  Proof. destruct mp as [|p [|q mp]]; cbn; [discriminate| |]; intros H; injection H as <-; reflexivity. Qed.
+
+  Lemma poly_result_incl o d r :
+    fst (poly_result (set_incl true o) d r) = fst (poly_result (set_incl false o) d r) /\
+    forall f, snd (poly_result (set_incl false o) d r) = Some f ->
+      exists g, snd (poly_result (set_incl true o) d r) = Some (with_geom f g) /\
+                (g = f_geom f \/ (is_mp_geom g = true /\ is_mp_geom (f_geom f) = true)).
+  Proof.
+    unfold Model.poly_result. cbn [inclInvalid set_incl negb].
+    set (steps := map (poly_step d (r_tags r)) (r_members r)).
+    set (skips := flat_map ps_skips steps).
+    rewrite andb_false_r, andb_true_r.
+    destruct (flat_map ps_outer steps) as [|[s w] rest] eqn:Houter.
+    - (* no outer: nothing without the option *)
+      cbn [is_nil]. split; [|intros f H; discriminate].
+      cbn [map]. rewrite andb_false_r. destruct (mp_geom _); reflexivity.
+    - cbn [is_nil].
+      assert (Hgen :
+        fst (let mp0 := outer_polys join ring_of true (map fst ((s, w) :: rest)) in
+             if is_nil mp0 && false then (skips, None)
+             else match mp_geom (add_inners join ring_of true mp0 (flat_map ps_inner steps)) with
+                  | Some g => (skips, Some (mk_feature (set_incl true o) d TRel (r_id r) (r_tags r) (existsb ps_taint steps) (r_meta r) g))
+                  | None => (skips, None)
+                  end) =
+        fst (let mp0 := outer_polys join ring_of false (map fst ((s, w) :: rest)) in
+             if is_nil mp0 && true then (skips, None)
+             else match mp_geom (add_inners join ring_of false mp0 (flat_map ps_inner steps)) with
+                  | Some g => (skips, Some (mk_feature (set_incl false o) d TRel (r_id r) (r_tags r) (existsb ps_taint steps) (r_meta r) g))
+                  | None => (skips, None)
+                  end) /\
+        forall f,
+        snd (let mp0 := outer_polys join ring_of false (map fst ((s, w) :: rest)) in
+             if is_nil mp0 && true then (skips, None)
+             else match mp_geom (add_inners join ring_of false mp0 (flat_map ps_inner steps)) with
+                  | Some g => (skips, Some (mk_feature (set_incl false o) d TRel (r_id r) (r_tags r) (existsb ps_taint steps) (r_meta r) g))
+                  | None => (skips, None)
+                  end) = Some f ->
+        exists g,
+        snd (let mp0 := outer_polys join ring_of true (map fst ((s, w) :: rest)) in
+             if is_nil mp0 && false then (skips, None)
+             else match mp_geom (add_inners join ring_of true mp0 (flat_map ps_inner steps)) with
+                  | Some g => (skips, Some (mk_feature (set_incl true o) d TRel (r_id r) (r_tags r) (existsb ps_taint steps) (r_meta r) g))
+                  | None => (skips, None)
+                  end) = Some (with_geom f g) /\
+        (g = f_geom f \/ (is_mp_geom g = true /\ is_mp_geom (f_geom f) = true))).
+      { cbn zeta. rewrite andb_false_r, andb_true_r.
+        split.
+        - destruct (mp_geom (add_inners join ring_of true _ _)); destruct (is_nil _); try reflexivity;
+            destruct (mp_geom (add_inners join ring_of false _ _)); reflexivity.
+        - intros f.
+          destruct (outer_polys join ring_of false (map fst ((s, w) :: rest))) as [|p0 mp0] eqn:Hmp0;
+            [cbn; discriminate|]. cbn [is_nil].
+          destruct (mp_geom (add_inners join ring_of false (p0 :: mp0) _)) as [g0|] eqn:Hg0; [|cbn; discriminate].
+          cbn [snd]. intros H. injection H as <-.
+          pose proof (outer_polys_len (map fst ((s, w) :: rest))) as Hlen. rewrite Hmp0 in Hlen. cbn in Hlen.
+          pose proof (add_inners_len true (outer_polys join ring_of true (map fst ((s, w) :: rest))) (flat_map ps_inner steps)) as Hlen2.
+          destruct (mp_geom_some (add_inners join ring_of true (outer_polys join ring_of true (map fst ((s, w) :: rest))) (flat_map ps_inner steps))) as [g [Hg Hmp]].
+          { intros Hnil. rewrite Hnil in Hlen2. cbn in Hlen2. lia. }
+          rewrite Hg. exists g. split; [reflexivity|]. right. split; [exact Hmp|].
+          cbn [f_geom mk_feature]. exact (mp_geom_is_mp _ _ Hg0). }
+      destruct rest as [|p rest].
+      + destruct (fold_right Z.add 0 (map ps_cnt steps) =? 1).
+        * (* old-style branch: independent of the option *)
+          split; [reflexivity|]. intros f Hf. exists (f_geom f). split; [|left; reflexivity].
+          destruct (ring_invalid _); [discriminate|].
+          destruct (has_interesting _ _); cbn [snd] in *; injection Hf as <-; reflexivity.
+        * exact Hgen.
+      + exact Hgen.
+  Qed.
+
+  Theorem rel_result_incl o d r :
+    fst (rel_result (set_incl true o) d r) = fst (rel_result (set_incl false o) d r) /\
+    (is_mp r = false -> rel_result (set_incl true o) d r = rel_result (set_incl false o) d r) /\
+    forall f, snd (rel_result (set_incl false o) d r) = Some f ->
+      exists g, snd (rel_result (set_incl true o) d r) = Some (with_geom f g) /\
+                (g = f_geom f \/ (is_mp_geom g = true /\ is_mp_geom (f_geom f) = true)).
+  Proof.
+    unfold Model.rel_result, is_mp.
+    destruct (String.eqb (tag_find (r_tags r) "type") "route").
+    - split; [reflexivity|]. split; [reflexivity|].
+      intros f Hf. exists (f_geom f). split; [|left; reflexivity].
+      change (route_result join (set_incl true o) d r) with (route_result join (set_incl false o) d r).
+      rewrite Hf. destruct f; reflexivity.
+    - destruct (_ || _); cbn [negb andb].
+      + destruct (poly_result_incl o d r) as [H1 H2]. split; [exact H1|]. split; [discriminate|exact H2].
+      + split; [reflexivity|]. split; [reflexivity|]. intros f Hf. discriminate.
+  Qed.
+
+  Theorem skippable_incl o d : skippable (set_incl true o) d = skippable (set_incl false o) d.
+  Proof. unfold Model.skippable. apply flat_map_ext. intros r. apply rel_result_incl. Qed.
+
+  Theorem way_features_incl o d :
+    way_features join ring_of (set_incl true o) d = way_features join ring_of (set_incl false o) d.
+  Proof. unfold Model.way_features. rewrite skippable_incl. reflexivity. Qed.
+
+  Theorem node_features_incl o d :
+    node_features (set_incl true o) d = node_features (set_incl false o) d.
+  Proof. reflexivity. Qed.
+End Incl.
